@@ -192,7 +192,8 @@ Pred(D, sb, r, s, i) ==
     [] sb = "media" /\ "EmptyDatagram" \in D /\ i.m = "trunc" -> "crash"    \* truncation at 0
     [] sb = "parser" /\ "ParamLenZeroLoop" \in D /\ i.k \in {"parse_packet", "decode_params"} /\ i.c = "corpus" -> "over"
     [] sb = "parser" /\ "ShortBody" \in D /\ i.k = "parse_packet" /\ i.c \in {"corpus", "trunc"} -> "crash"
-    [] sb = "parser" /\ "HdrExtLen" \in D /\ i.k = "RtpPacket.parse" /\ i.c = "corpus" -> "crash"
+    [] sb = "parser" /\ "HdrExtLen" \in D /\ i.k = "RtpPacket.parse" /\ i.c \in {"corpus", "trunc"} -> "crash"
+    [] sb = "sctp" /\ "ParamLenZeroLoop" \in D /\ i.m \in {"param_len_small", "param_len_big"} -> "maybe"
     [] sb = "parser" /\ "RembCount" \in D /\ i.k = "unpack_remb_fci" /\ i.c \in {"corpus", "trunc"} -> "crash"
     [] i.m \in Unpredictable \/ i.k = "RAW" \/ (sb = "parser" /\ i.c = "random") -> IF D = {} THEN "clean" ELSE "maybe"
     [] OTHER -> "clean"
